@@ -43,6 +43,13 @@ def gen_scenarios(seed, tier):
     for i in range(n):
         if i % 16 == 9:
             yield gen_resolving_cancel(rng, i)
+        elif i % 16 == 1:
+            from props.common import schedule_modes
+            d = dict(kind="comb-cancel", idx=i, comb=rng.choice(["zip", "zip", "sequence", "and"]), n=rng.choice([2, 3, 4]),
+                     pre=rng.choice(["cancelled-first", "cancelled-first", "cancelled-middle", "none"]),
+                     then=rng.choice(["cancel-output", "nothing"]), seed=rng.randrange(1 << 30))
+            d.update(schedule_modes(rng))
+            yield d
         elif i % 8 == 5:
             yield gen_foreign_race(rng, i)
         elif i % 4 == 3:
@@ -140,7 +147,51 @@ def gen_running_cancel(rng, i):
     return d
 
 
+def run_comb_cancel(desc):
+    """a combinator over inputs one of which is ALREADY cancelled when the combinator is built (so the output is cancelled at once),
+    or whose output the user cancels: every input that is still pending must be asked to cancel - wherever it stands in the list"""
+    from props.common import run, sched_kwargs, wrapfut
+    from world.sim import SimFuture
+    from concurrent.futures import Future
+    wrapfut.install()
+    st = {}
+
+    def body(s, w):
+        from more_executors.futures import f_zip, f_sequence, f_and
+        ins = [SimFuture() for _ in range(desc["n"])]
+        pre = None
+        if desc["pre"] == "cancelled-first":
+            pre = 0
+        elif desc["pre"] == "cancelled-middle" and desc["n"] > 2:
+            pre = 1
+        if pre is not None:
+            Future.cancel(ins[pre])
+            ins[pre].set_running_or_notify_cancel()
+        out = {"zip": lambda: f_zip(*ins), "sequence": lambda: f_sequence(ins), "and": lambda: f_and(*ins)}[desc["comb"]]()
+        st["cancel_ret"] = None
+        if desc["then"] == "cancel-output" or pre is None:
+            s.yield_point("api")
+            st["cancel_ret"] = out.cancel()
+        st["out_cancelled"] = out.cancelled()
+        st["names"] = [s.name_of(f, "f") for f in ins]
+        st["pre"] = pre
+        st["completed"] = True
+    s, w = run(body, **sched_kwargs(desc))
+    hits = []
+    if st.get("completed") and st["out_cancelled"]:
+        asked = set(e[2] for e in s.log if e[1] == "dcancel>")
+        missing = [j for j, nm in enumerate(st["names"]) if j != st["pre"] and nm not in asked]
+        if missing:
+            hits.append(hit("C06/cancel-not-forwarded:combinator-input", "the output of f_%s over %d inputs (input %r already cancelled when it was "
+                            "built; out.cancel() -> %r) is cancelled, but the pending inputs at positions %r were never asked to cancel"
+                            % (desc["comb"], desc["n"], st["pre"], st["cancel_ret"], missing)))
+    return {"hits": hits, "blocks": [], "verdicts": ["OK 1 1"] if st.get("completed") and not hits else [], "schedule": list(s.chooser.record),
+            "fingerprint": fingerprint(desc, s) if st.get("completed") else None, "stats": {"family_comb_cancel": 1, "cancel_returned": 1}, "sample": None}
+
+
 def run_one(desc):
+    if desc.get("kind") == "comb-cancel":
+        return run_comb_cancel(desc)
     s, ctx, out = sc.run_stack(desc, props=("C06", "C18"))
     hits = list(out.get("C06", []))
     hits += [h for h in out.get("C18", []) if h["sig"].startswith("C18/escaped:cancel")]
